@@ -378,4 +378,209 @@ def perDatagram (unpack : List Nat → Option Msg) (handler : Msg → Outcome) (
   | _ => []
 
 
+
+/-! ## The life cycle of a TCP/DoT connection (`cStep`): the invariant of the code as it is
+
+`CInv` holds in every state the scheduler can reach when no frame is dropped (`NoDrop`): nothing is lost, the
+connection is closed (once) exactly when the read loop has ended and no worker is left, every frame read is
+either still in flight or answered, and the log is the answers followed by the close. -/
+
+/-- The scheduler never produces a frame the server drops. -/
+def NoDrop (evs : List CEv) : Prop := ∀ id, CEv.recv id true ∉ evs
+
+structure CPre (s : CState) : Prop where
+  nodrop : s.dropping = []
+  nolost : s.lost = []
+  done_imp : s.finalDone = true → s.reading = false ∧ s.inflight = []
+  closes_eq : s.closes = if s.finalDone then 1 else 0
+  account : ∀ id, s.answered.count id + s.inflight.count id = s.received.count id
+  logEq : s.log = s.answered.map CObs.wrote ++ List.replicate s.closes CObs.closed
+
+structure CInv (s : CState) : Prop extends CPre s where
+  done_of : s.reading = false → s.inflight = [] → s.finalDone = true
+
+theorem cSettle_inv (s : CState) (h : CPre s) : CInv (cSettle true s) := by
+  obtain ⟨h1, h2, h3, h4, h5, h6⟩ := h
+  unfold cSettle
+  by_cases hr : s.reading = true
+  · simp [hr]
+    exact ⟨⟨h1, h2, h3, h4, h5, h6⟩, fun hf => by simp [hr] at hf⟩
+  · have hr' : s.reading = false := by simpa using hr
+    by_cases hf : s.finalDone = true
+    · simp [hr', hf]
+      exact ⟨⟨h1, h2, h3, h4, h5, h6⟩, fun _ _ => hf⟩
+    · have hf' : s.finalDone = false := by simpa using hf
+      by_cases hi : s.inflight = []
+      · simp [hr', hf', hi, h1]
+        refine ⟨⟨by simp, by simpa using h2, ?_, ?_, ?_, ?_⟩, ?_⟩
+        · intro _; exact ⟨rfl, rfl⟩
+        · simp [h4, hf']
+        · intro i; simpa [hi] using h5 i
+        · simp [h6, h4, hf']
+        · intro _ _; rfl
+      · have : s.inflight.isEmpty = false := by
+          cases hx : s.inflight with
+          | nil => exact absurd hx hi
+          | cons a l => rfl
+        simp [hr', hf', this]
+        exact ⟨⟨h1, h2, h3, h4, h5, h6⟩, fun _ hi' => absurd hi' hi⟩
+
+theorem cStep_inv (s : CState) (ev : CEv) (hev : ∀ id, ev ≠ .recv id true) (h : CInv s) :
+    CInv (cStep true s ev) := by
+  obtain ⟨⟨h1, h2, h3, h4, h5, h6⟩, h7⟩ := h
+  cases ev with
+  | recv id drop =>
+    cases drop with
+    | true => exact absurd rfl (hev id)
+    | false =>
+      unfold cStep
+      by_cases hr : s.reading = true
+      · have hf : s.finalDone = false := by
+          cases hx : s.finalDone with
+          | false => rfl
+          | true => have := (h3 hx).1; simp [hr] at this
+        simp [hr]
+        refine ⟨⟨h1, h2, ?_, ?_, ?_, ?_⟩, ?_⟩
+        · intro hx; simp [hf] at hx
+        · exact h4
+        · intro i
+          have := h5 i
+          simp only [List.count_cons, List.count_append, List.count_nil]
+          by_cases hi : id = i <;> simp [hi] <;> omega
+        · exact h6
+        · intro hx; simp at hx
+      · simp [hr]
+        exact ⟨⟨h1, h2, h3, h4, h5, h6⟩, h7⟩
+  | finish id =>
+    unfold cStep
+    by_cases hc : s.inflight.contains id = true
+    · have hmem : id ∈ s.inflight := by simpa using hc
+      have hne : s.inflight ≠ [] := by intro hx; rw [hx] at hmem; simp at hmem
+      have hf : s.finalDone = false := by
+        cases hx : s.finalDone with
+        | false => rfl
+        | true => exact absurd (h3 hx).2 hne
+      have hz : s.closes = 0 := by simp [h4, hf]
+      simp only [hc, hz, ↓reduceIte]
+      apply cSettle_inv
+      refine ⟨h1, h2, ?_, ?_, ?_, ?_⟩
+      · intro hx; simp [hf] at hx
+      · simp [hf]
+      · intro i
+        have := h5 i
+        simp only [List.count_append, List.count_cons, List.count_nil]
+        by_cases hi : id = i
+        · subst hi
+          have hpos : 0 < s.inflight.count id := List.count_pos_iff.mpr hmem
+          rw [List.count_erase_self]
+          simp
+          omega
+        · rw [List.count_erase_of_ne (fun e => hi e.symm)]
+          simp [hi]
+          omega
+      · simp [h6, hz]
+    · have hc' : s.inflight.contains id = false := by simpa using hc
+      have hd : s.dropping.contains id = false := by simp [h1]
+      simp only [hc', hd]
+      exact ⟨⟨h1, h2, h3, h4, h5, h6⟩, h7⟩
+  | endRead =>
+    unfold cStep
+    by_cases hr : s.reading = true
+    · have hf : s.finalDone = false := by
+        cases hx : s.finalDone with
+        | false => rfl
+        | true => have := (h3 hx).1; simp [hr] at this
+      simp only [hr, ↓reduceIte]
+      apply cSettle_inv
+      exact ⟨h1, h2, fun hx => by simp [hf] at hx, h4, h5, h6⟩
+    · simp [hr]
+      exact ⟨⟨h1, h2, h3, h4, h5, h6⟩, h7⟩
+
+theorem cRun_inv (evs : List CEv) (hn : NoDrop evs) : ∀ s, CInv s → CInv (cRun true s evs) := by
+  induction evs with
+  | nil => intro s h; exact h
+  | cons ev evs ih =>
+    intro s h
+    unfold cRun
+    simp only [List.foldl_cons]
+    apply ih (fun id hm => hn id (List.mem_cons_of_mem _ hm))
+    apply cStep_inv _ _ _ h
+    intro id he
+    exact hn id (by simp [he])
+
+theorem cInit_inv : CInv cInit := by
+  refine ⟨⟨rfl, rfl, ?_, rfl, ?_, rfl⟩, ?_⟩ <;> simp [cInit]
+
+/-- The ids of the frames the read loop gets to read: the `recv` events before the loop ends. -/
+def recvIds : List CEv → List Nat
+  | [] => []
+  | .recv id _ :: evs => id :: recvIds evs
+  | .finish _ :: evs => recvIds evs
+  | .endRead :: _ => []
+
+@[simp] theorem cSettle_reading (w : Bool) (s : CState) : (cSettle w s).reading = s.reading := by
+  unfold cSettle; split <;> rfl
+@[simp] theorem cSettle_received (w : Bool) (s : CState) : (cSettle w s).received = s.received := by
+  unfold cSettle; split <;> rfl
+@[simp] theorem cSettle_dropping (w : Bool) (s : CState) : (cSettle w s).dropping = s.dropping := by
+  unfold cSettle; split <;> rfl
+
+theorem cRun_received_stopped (w : Bool) (evs : List CEv) :
+    ∀ s, s.reading = false → (cRun w s evs).received = s.received := by
+  induction evs with
+  | nil => intro s _; rfl
+  | cons ev evs ih =>
+    intro s hr
+    unfold cRun
+    simp only [List.foldl_cons]
+    have : (cStep w s ev).reading = false ∧ (cStep w s ev).received = s.received := by
+      cases ev with
+      | recv id d => simp [cStep, hr]
+      | finish id =>
+        by_cases h1 : id ∈ s.inflight
+        · by_cases h2 : s.closes = 0 <;> simp [cStep, h1, h2, hr]
+        · by_cases h3 : id ∈ s.dropping <;> simp [cStep, h1, h3, hr]
+      | endRead => simp [cStep, hr]
+    have h2 := ih _ this.1
+    unfold cRun at h2
+    rw [h2, this.2]
+
+theorem cRun_received (evs : List CEv) (hn : ∀ id, CEv.recv id true ∉ evs) :
+    ∀ s, s.reading = true → s.dropping = [] →
+      (cRun true s evs).received = s.received ++ recvIds evs := by
+  induction evs with
+  | nil => intro s _ _; simp [cRun, recvIds]
+  | cons ev evs ih =>
+    intro s hr hd
+    have hn' : ∀ id, CEv.recv id true ∉ evs := fun id hm => hn id (List.mem_cons_of_mem _ hm)
+    cases ev with
+    | recv id d =>
+      cases d with
+      | true => exact absurd (by simp) (hn id)
+      | false =>
+        have := ih hn' (cStep true s (.recv id false)) (by simp [cStep, hr]) (by simp [cStep, hr, hd])
+        unfold cRun at this ⊢
+        simp only [List.foldl_cons]
+        rw [this]
+        simp [cStep, hr, recvIds]
+    | finish id =>
+      have h1 : (cStep true s (.finish id)).reading = true ∧ (cStep true s (.finish id)).dropping = [] ∧
+          (cStep true s (.finish id)).received = s.received := by
+        by_cases h1 : id ∈ s.inflight
+        · by_cases h2 : s.closes = 0 <;> simp [cStep, h1, h2, hr, hd]
+        · simp [cStep, h1, hr, hd]
+      have := ih hn' _ h1.1 h1.2.1
+      unfold cRun at this ⊢
+      simp only [List.foldl_cons]
+      rw [this, h1.2.2]
+      simp [recvIds]
+    | endRead =>
+      have h1 : (cStep true s .endRead).reading = false ∧ (cStep true s .endRead).received = s.received := by
+        simp [cStep, hr]
+      have := cRun_received_stopped true evs _ h1.1
+      unfold cRun at this ⊢
+      simp only [List.foldl_cons]
+      rw [this, h1.2]
+      simp [recvIds]
+
 end Agd.Serve
